@@ -1,7 +1,7 @@
 (* C13 — behaviour of the pinned tree (findings F13a, F13b) and of mutant
    models, as witnesses: the statements proved in Props/C13.v fail for them. *)
 From Coq Require Import ZArith List Bool Arith Lia Permutation.
-From Tally Require Import Base.Obs Base.Search Gen.Params Model.Varint Model.Thrift Model.Buckets Model.M3Pipe
+From Tally Require Import Base.ObsCore Base.Search Gen.Params Model.Varint Model.Thrift Model.Buckets Model.M3Pipe
   Proof.M3PipeP.
 Import ListNotations.
 Open Scope Z_scope.
